@@ -286,6 +286,15 @@ def run(ctx, scratch):
         m = {'shape': [nrow, ncol], 'coo': [[i, j, w] for (i, j, w) in triples],
              'dtype': dtype or rng.choice(['int', 'float']),
              'fmt': fmt or rng.choice(['csr', 'csr', 'csr', 'csc', 'coo', 'lil', 'dense'])}
+        if algo == 'diffusion' and not malformed and nrow == ncol and not fb and values_row is None and values_col is None \
+                and len(triples) >= 3 and rng.random() < 0.12:
+            # explicitly STORED zero weights (what thresholding `adjacency.data[adjacency.data < t] = 0` leaves behind): every edge
+            # into one node keeps its place in the matrix with weight 0; for the model these edges do not exist
+            v0 = rng.choice(sorted({j for (_, j, _) in triples}))
+            m['coo'] = [[i, j, (0 if j == v0 else w)] for (i, j, w) in triples]
+            m['fmt'] = 'csr'
+            triples = [(i, j, w) for (i, j, w) in triples if j != v0]
+            fam = fam + '_stored_zeros'
         args = dict(m=m, n_iter=n_iter, values=values, values_row=values_row, values_col=values_col,
                     init=init, force_bipartite=fb)
         lit = (wmat_lit(nrow, ncol, triples), seeds_lit(values), seeds_lit(values_row), seeds_lit(values_col),
